@@ -375,7 +375,9 @@ fn evaluate(case: &C03Case, p: &Prepared, opts: &ROpts, res: &ScenarioResult) ->
                 known_hits.push(sig.to_string());
                 continue;
             }
-            let conclusive = prev.map(|p| p > fr.id128()).unwrap_or(false);
+            // conclusive only once the replay is over (its threshold is out): until then neither
+            // the recorded finding's signature nor a genuine loss can be told apart
+            let conclusive = prev.map(|p| p > fr.id128()).unwrap_or(false) && (opts.tail || !thresholds.is_empty());
             return Err(Fail::new(
                 if conclusive { Class::Missing } else { Class::Follow },
                 format!(
